@@ -354,6 +354,11 @@ def build_prior(pr):
                 pars["K"] = xu.with_unit(pm.Normal("K", K["mu"], K["sigma"]), unit(K["unit"]))
             for i, x in enumerate(v):
                 pars["v%d" % i] = xu.with_unit(pm.Normal("v%d" % i, x["mu"], x["sigma"]), unit(x["unit"]))
+            if pr.get("pars_order") is not None:
+                # the constructor takes a dict (or list) of variables: their order is the caller's business
+                names_ = list(pars)
+                perm_ = np.random.default_rng(int(pr["pars_order"])).permutation(len(names_))
+                pars = {names_[i]: pars[names_[i]] for i in perm_}
             prior = tj.JokerPrior(pars=pars, poly_trend=poly, v0_offsets=offs, model=model)
     return prior
 
